@@ -1,5 +1,6 @@
 import WhVerif.Util.Proto
 import WhVerif.Model.C13
+import WhVerif.Model.C13Header
 namespace WhVerif.Driver.C13
 open Lean WhVerif.Proto WhVerif.C13
 
@@ -48,6 +49,20 @@ def exceptJson : Except Err (List Record) → Json
   | .ok v => Json.mkObj [("ok", ofList recordJson v)]
   | .error e => Json.mkObj [("err", errJson e)]
 
+def parseHLine (j : Json) : Option HLine := do
+  let idj ← getObj? j "id"
+  let id ← (if idj.isNull then some none else (asStr? idj).map some)
+  pure { key := ← getStr? j "key", id := id, text := ← getStr? j "text" }
+
+/-- `c13.header {lines: [{key, id|null, text}]}` → `{cur: [text…], fix: [text…]}` (`unphase_header` as in HEAD / after F76.patch) -/
+def handleHeader (op : String) (j : Json) : Option Json :=
+  if op == "c13.header" then
+    match (getList? j "lines").bind (·.mapM parseHLine) with
+    | some h => some (Json.mkObj [("cur", ofList (fun (l : HLine) => Json.str l.text) (unphaseHeaderCur h)),
+                                  ("fix", ofList (fun (l : HLine) => Json.str l.text) (unphaseHeaderFix h))])
+    | none => some badInput
+  else none
+
 /-- `c13.unphase {records}` → `{spec: [...], fix: {ok|err}, cur: {ok|err}}` -/
 def handle (op : String) (j : Json) : Option Json :=
   if op == "c13.unphase" then
@@ -56,5 +71,5 @@ def handle (op : String) (j : Json) : Option Json :=
                                   ("fix", exceptJson (unphaseFix v)),
                                   ("cur", exceptJson (unphaseCur v))])
     | none => some badInput
-  else none
+  else handleHeader op j
 end WhVerif.Driver.C13
